@@ -1,6 +1,7 @@
 package main
 
 import (
+	"go/types"
 	"golang.org/x/tools/go/ssa"
 )
 
@@ -21,7 +22,7 @@ func (e *fnEnc) stdlibModel(c *blockCtx, in ssa.Instruction, name string, args [
 		if e.strAbstract {
 			return []Term{e.strCompare(e.abytes(c.st, args[0]), e.abytes(c.st, args[1]))}, true
 		}
-		comp, cs := e.elemComp(SInt)
+		comp, cs := e.elemCompT(types.Typ[types.Uint8])
 		h := e.heapGet(c.st, comp, cs)
 		mk := func(sl Term) Term {
 			return app(SStr, "mk-str", sel(h, slBase(sl), ArrayOf(SInt, SInt)), slOff(sl), slLen(sl))
